@@ -442,3 +442,23 @@ Lemma hals_nnls_trace {F} (Op : fops F) UtM UtU n V0 sol iters tol o :
   if hals_rejects Op UtM UtU iters o then Err
   else Ok (snd (hals_trace Op UtM UtU n o tol iters true (f0 Op) (match V0 with Some V => V | None => hals_init Op UtM UtU n sol end))).
 Proof. unfold hals_nnls. destruct (hals_rejects _ _ _ _ _); [reflexivity|]. cbv zeta. now rewrite hals_trace_snd. Qed.
+
+(* the callback can only make the loop return an EARLIER iterate of the pass *)
+Lemma hals_loop_cb_iter {F} (Op : fops F) UtM UtU n o cb tol fuel : forall first err0 V,
+  exists m, (m <= fuel)%nat /\ hals_loop_cb Op UtM UtU n o cb tol fuel first err0 V = iterl m (hals_pass Op UtM UtU n o) V.
+Proof.
+  induction fuel as [|f IH]; intros first err0 V; [exists 0%nat; split; [lia | reflexivity]|].
+  cbn [hals_loop_cb]. cbv zeta. rewrite hals_pass_e_fst.
+  destruct (cb _ _); [exists 1%nat; split; [lia | reflexivity]|].
+  destruct (fltb _ _ _); [exists 1%nat; split; [lia | reflexivity]|].
+  destruct (IH false (if first then snd (hals_pass_e Op UtM UtU n o V) else err0) (hals_pass Op UtM UtU n o V)) as (m & Hm & E).
+  exists (S m). split; [lia | exact E].
+Qed.
+Lemma hals_loop_cb_none {F} (Op : fops F) UtM UtU n o tol fuel : forall first err0 V,
+  hals_loop_cb Op UtM UtU n o (fun _ _ => false) tol fuel first err0 V = hals_loop Op UtM UtU n o tol fuel first err0 V.
+Proof. induction fuel as [|f IH]; intros first err0 V; [reflexivity|]. cbn [hals_loop_cb hals_loop]. cbv zeta. destruct (fltb _ _ _); [reflexivity | apply IH]. Qed.
+(* a callback that answers True exactly at pass j (and the rule not firing before) returns the j-th iterate: with tol = 0 *)
+Lemma hals_loop_cb_true_first {F} (Op : fops F) UtM UtU n o cb tol fuel first err0 V :
+  cb (hals_pass Op UtM UtU n o V) (snd (hals_pass_e Op UtM UtU n o V)) = true ->
+  hals_loop_cb Op UtM UtU n o cb tol (S fuel) first err0 V = hals_pass Op UtM UtU n o V.
+Proof. intros H. cbn [hals_loop_cb]. cbv zeta. rewrite hals_pass_e_fst. now rewrite H. Qed.
